@@ -44,8 +44,15 @@ def run(facts, tr, rep):
                 sites.append((b, c))
     rep.floor("C18.set_status-sites", len(sites), 3)
     tasks = {b.def_ for (b, _c) in sites}
-    rep.ob("C18.WHO", "%s|set_status-callers" % CRATE, len(tasks) == 1 and all(b.kind == "coroutine" for (b, _c) in sites), sites[0][1].where() if sites else "-",
-           "set_status is called only from the check task (%s)" % sorted(tasks) if len(tasks) == 1 else "set_status is called from %s" % sorted(tasks))
+    okwho = len(tasks) == 1
+    if okwho:
+        tb = sites[0][0]
+        if tb.kind != "coroutine":
+            # a private helper: it must be called only from spawned check tasks
+            callers = tr.callers(tb.def_)
+            okwho = bool(callers) and all(cs.g.b.kind == "coroutine" for cs in callers) and not tb.j.get("vis") == "pub"
+    rep.ob("C18.WHO", "%s|set_status-callers" % CRATE, okwho, sites[0][1].where() if sites else "-",
+           "set_status is called only from the check task (%s)" % sorted(tasks) if okwho else "set_status is called from %s" % sorted(tasks))
     if not sites:
         return
     b = sites[0][0]
@@ -106,16 +113,23 @@ def run(facts, tr, rep):
     rep.ob("C18.THRESHOLDS", skey(b, "unknown-arm"), not bad, g.where(utgt),
            "an unknown check result changes neither the status nor the counters" if not bad else "the unknown arm calls %s" % bad[0].name)
     # timeout => Unhealthy: the matched status is the Ok payload of timeout(..).await or the constant Unhealthy on its Err edge
-    st_node = tr.expand(tr.place(b, arms_sw.place, arms_sw.defloc))
+    st_node = tr.expand(tr.place(b, arms_sw.place, arms_sw.defloc), upvars=True, params=True)
     lv = [peel(x) for x in leaves(st_node)]
-    aw = [a for a in g.awaits() if a.fut_ty["s"].startswith("tokio::time::timeout::Timeout")]
+    tb_ = b
+    if b.kind != "coroutine":
+        cs_ = tr.callers(b.def_)
+        if cs_:
+            tb_ = cs_[0].g.b
+            rep.saw(tb_)
+    gt_ = graph(tb_)
+    aw = [a for a in gt_.awaits() if a.fut_ty["s"].startswith("tokio::time::timeout::Timeout")]
     okt = False
     if aw:
-        V = await_node(b, aw[0])
+        V = await_node(tb_, aw[0])
         from_ok = [x for x in lv if derives(tr, x, V, variants=("Ready", "Ok"))]
         consts = [x for x in lv if x[0] == "agg" and tr.agg_of(x)[1].get("variant") == "Unhealthy"]
         okt = len(from_ok) >= 1 and len(consts) >= 1 and len(from_ok) + len(consts) == len(lv)
-        d = tr.expand(tr.operand(b, awaited_call(tr, b, aw[0]).args[0], awaited_call(tr, b, aw[0]).loc), upvars=True)
+        d = tr.expand(tr.operand(tb_, awaited_call(tr, tb_, aw[0]).args[0], awaited_call(tr, tb_, aw[0]).loc), upvars=True)
         okt = okt and mentions_field(tr, d, "timeout")
     rep.ob("C18.THRESHOLDS", skey(b, "timeout-is-unhealthy"), okt, g.where(arms_sw.bb),
            "the evaluated status is the checker's answer within config.timeout, or Unhealthy when the check timed out" if okt else
@@ -185,13 +199,13 @@ def run(facts, tr, rep):
                "with no eligible resource None is returned before any selection" if oke else "selection can run on an empty candidate list")
         # the returned value comes from the candidate vector
         okr = False
-        for (i, j, node) in ret_assigns(tr, w):
-            for lf in leaves(node):
-                lf = peel(lf)
-                if lf[0] == "call":
-                    cs = calls_in(tr, lf, lambda x: x.name == "get" and "slice" in (x.path or "") or x.name == "get")
-                    col = calls_in(tr, lf, lambda x: x.name == "collect")
-                    if cs and col:
+        col_nodes = [("call", w.crate.name, w.def_, c.bb) for c in gw.calls() if c.name == "collect"]
+        for wb in descendants(facts, w):
+            for c in graph(wb).calls():
+                if c.name == "get" and c.args:
+                    recv = tr.expand(tr.operand(wb, c.args[0], c.loc), upvars=True)
+                    if any(x in col_nodes for x in tr.walk(recv, limit=40)):
+                        # and the function's result is built from that element / from the selection over the candidates
                         okr = True
         rep.ob("C18.SELECT", skey(w, "returns-candidate"), okr, "%s:%d" % (w.span["file"], w.span["line"]),
                "the returned resource is an element of the filtered candidate list" if okr else "the returned resource is not taken from the filtered candidate list")
@@ -281,7 +295,7 @@ def run(facts, tr, rep):
         rep.ob("C18.CURSOR", skey(sbody, "cursor-index"), idx_ok, rmw[0].where() if rmw else "-",
                "the eligible list is indexed by cursor % len under !is_empty()" if idx_ok else "the round-robin index is not cursor % len(eligible) under a non-empty guard")
     # ---------------------------------------------------------------- SHARE
-    n = check_share(facts, tr, rep, "C18.SHARE", "tower_resilience_healthcheck::context::HealthCheckedContext", only_fields=["state"])
+    n = check_share(facts, tr, rep, "C18.SHARE", "tower_resilience_healthcheck::context::HealthCheckedContext")
     rep.floor("C18.share-fields", n, 1)
 
 
@@ -303,7 +317,7 @@ def _threshold_guard(tr, edges, counter, threshold):
 
 
 def _mentions_name(tr, node, name):
-    node = tr.expand(node, upvars=True, params=False)
+    node = tr.expand(node, upvars=True, params=True)
     for x in tr.walk(node, limit=60):
         if x[0] == "field" and str(x[2]) == name:
             return True
